@@ -715,7 +715,7 @@ pub fn c11() -> EngineProp {
         nontrivial: nt11,
         quick_cases: 8000,
         thorough_cases: 50_000,
-        rule: "driver-producible EngineSim histories against an adversarial broker (wrong-type / unknown-id / duplicate acks, reason-count mismatch, AUTH, second CONNACK, garbage, truncated packets, bad aliases, oversize packets, CONNACK before the CONNECT was flushed) with extreme configuration values (0 / 1 ms / huge timeouts, keep-alive 0/1/65535, capacity 4), plus compliant-broker cases for the converse clause; non-trivial = an error path taken, or an event delivered after an error, or an ack timeout fired, or a steered CONNACK during CONNECT transmission; distinct = abstracted event history hash",
+        rule: "driver-producible EngineSim histories against an adversarial broker (wrong-type / unknown-id / duplicate acks, reason-count mismatch, AUTH, second CONNACK, garbage, truncated packets, bad aliases, oversize packets, CONNACK before the CONNECT was flushed) with extreme configuration values (0 / 1 ms / huge timeouts, keep-alive 0/1/65535, capacity 4), plus compliant-broker cases for the converse clause; oracle: no entry point panics, after an error nothing is emitted / accepted / surfaced until close, every certain protocol violation is reported as an error, a compliant server is never blamed, connection-closed handling itself never fails; non-trivial = an error path taken, or an event delivered after an error, or an ack timeout fired, or a steered CONNACK during CONNECT transmission; distinct = abstracted event history hash",
         directed: no_directed,
         fixup: common_fix,
         alt_profile: Some(p11c),
